@@ -618,7 +618,8 @@ fn gen_app_packet(sim: &Sim, addr: u16, tag: u32) -> Packet {
         }
     }
     let len = if sim.draw(400) == 399 {
-        sim.pick(&[28672usize, 28671, 28666, 4096])
+        // (incl. packets beyond what 4096 frames can carry: routing does not depend on size)
+        sim.pick(&[28672usize, 28671, 28666, 4096, 28673, 40000, 70000])
     } else {
         sim.pick(&[4usize, 0, 2, 9, 14, 30])
     };
@@ -1014,6 +1015,11 @@ pub fn run(sim: &Sim, prop: &str, tier: Tier) -> Outcome {
                         node.link.borrow_mut().rx.push_back(RxItem::Pkt(p));
                     }
                 }
+                if sim.chance(30) {
+                    // the polling ends in a link error now and then
+                    let at = sim.draw(node.link.borrow().rx.len() as u32 + 1) as usize;
+                    node.link.borrow_mut().rx.insert(at, RxItem::Err(sim.draw(N_ERR_KINDS)));
+                }
                 let request = gen_app_packet(sim, other_addr(sim, own), 0x800 + i);
                 let capture = sim.flag();
                 let multi_form = sim.flag();
@@ -1033,6 +1039,8 @@ pub fn run(sim: &Sim, prop: &str, tier: Tier) -> Outcome {
                 }
                 sim.probe("exchange_inside_history");
                 ops_log.push("exchange".to_string());
+                // (an exchange must leave the registry alone: look at once)
+                pending_reveal = prop == "C17" && sim.flag();
             }
             // ------------------ burst of removals and additions, no delivery between
             6 => {
